@@ -631,7 +631,8 @@ Proof.
   destruct (is_struct_kind dt); cbn [negb] in Hnew; [|discriminate Hnew].
   destruct (create_field_nodes false st dt) as [kids| |] eqn:Hc; try discriminate Hnew.
   inversion Hnew; subst c. clear Hnew.
-  unfold reflect_copy_to in Hrun. cbn [c_root c_defaults] in Hrun.
+  unfold reflect_copy_to, reflect_copy_to_gen in Hrun.
+  change (copy_tree_node_gen true) with copy_tree_node in Hrun. cbn [c_root c_defaults] in Hrun.
   fold (effective_options {| c_root := Node 0 0 0 false kids; c_defaults := apply_opts new_options ps |} cps) in Hrun.
   set (o := effective_options _ cps) in *.
   assert (Ho : opts_ok o).
